@@ -16,6 +16,7 @@ Exit status:
   3  a construct outside the supported subset inside one of the target items (or a target item is
      missing / has an unexpected shape); one line on stderr; nothing is written (never a guess).
 """
+import re
 import hashlib
 import os
 import sys
@@ -223,6 +224,12 @@ class Parser(pw.Parser):
             if self.at("impl"):
                 kind = self.impl_kind()
                 if kind == "target":
+                    # an impl block compiled only under a cargo feature / cfg (verification hooks, test helpers) is not part
+                    # of the default build: skipped like every other item that is not translated
+                    if any(re.sub(r"\s+", "", text).startswith("cfg(") for text, _ in attrs):
+                        end = self.skip_item()
+                        self.note_skip("cfg-gated impl of a target", t.line, end)
+                        continue
                     self.check_attrs(attrs)
                     self.parse_impl()
                     continue
